@@ -56,6 +56,11 @@ EXTRA = {
         "truncation is at CHARACTER granularity (the property's quantifier). A file cut inside a multi-byte UTF-8 "
         "character makes the text decoder raise UnicodeDecodeError in `for line in f`, before any row reaches the reader: "
         "byte granularity is outside the quantifier and not exercised",
+        "a workbook (.xlsx is a zip archive) cut at a byte position is not a workbook any more: openpyxl raises "
+        "BadZipFile before any row exists — like the UTF-8 byte cut this is byte granularity, outside the quantifier "
+        "(grids truncated at row / character granularity), and not exercised",
+        "the external law is exercised on a deterministic stream of ~2000 digit-leading strings per quick run (6000 "
+        "thorough) over the alphabet 0-9-/:. TZ+eE,_apm plus Unicode digits, also injected as cells of datetime columns",
         "read_excel: workbooks written by openpyxl from the (storable) damaged grid, read back with and without the "
         "<dimension> record; the rows handed to the model are those openpyxl's read-only reader yields",
         "the origin row of a delivered jsondata / cellgrid table is observed through the public surface only: a second "
@@ -169,9 +174,13 @@ def table_origins(rows, to, tracker, fixer_kind):
     from pdtable.io.parsers import blocks as B
     from pdtable.table_origin import InputError
     rec = []
-    handlers = {bt: B.make_raw_cells for bt in BlockType}
-    handlers.update(dict(B.DEFAULT_HANDLERS))
-    base = dict(B.TABLE_HANDLERS)[to]
+    try:
+        handlers = {bt: B.make_raw_cells for bt in BlockType}
+        handlers.update(dict(B.DEFAULT_HANDLERS))
+        base = dict(B.TABLE_HANDLERS)[to]
+        stable = B.parse_blocks_stable
+    except (AttributeError, KeyError, TypeError):
+        return None                      # these module-level names are not API: the origin is then unobservable
 
     def table_handler(cells, *a, **kw):
         origin = kw.get("origin", a[0] if a else None)
@@ -184,7 +193,7 @@ def table_origins(rows, to, tracker, fixer_kind):
     try:
         with warnings.catch_warnings():
             warnings.simplefilter("ignore")
-            for _ in B.parse_blocks_stable(iter(rows), issue_tracker=tr, block_handlers=handlers, fixer=fixer):
+            for _ in stable(iter(rows), issue_tracker=tr, block_handlers=handlers, fixer=fixer):
                 pass
     except InputError:
         pass
@@ -193,7 +202,7 @@ def table_origins(rows, to, tracker, fixer_kind):
     return rec
 
 
-def run_reader(route, payload, to, tracker, fixer_kind, env=None, rows=None):
+def run_reader(route, payload, to, tracker, fixer_kind, env=None, rows=None, sep=None, origin=None):
     """the real reader: route "native" (parse_blocks on the row objects as given: lists or tuples), "text"
     (read_csv on io.StringIO), "file" (read_csv on a path), "excel" (read_excel on a path).
     -> blocks / issues / ending as bc.impl_parse_blocks, + "tables": [(origin row, value)] of the delivered tables"""
@@ -202,22 +211,28 @@ def run_reader(route, payload, to, tracker, fixer_kind, env=None, rows=None):
     from pdtable.table_origin import InputError
     tr = bc.collecting_tracker() if tracker == "collecting" else None
     fixer = rc.make_fixer(fixer_kind) if fixer_kind else None
-    blocks, ending = [], "exhausted"
+    blocks, ending, table_sheets = [], "exhausted", []
+    kw = {}
+    if sep is not None:
+        kw["sep"] = sep
+    if origin is not None:
+        kw["origin"] = origin
+    err_issue = None
     try:
         with warnings.catch_warnings():
             warnings.simplefilter("ignore")
             if route == "native":
-                gen = parse_blocks(iter(payload), to=to, issue_tracker=tr, fixer=fixer)
+                gen = parse_blocks(iter(payload), to=to, issue_tracker=tr, fixer=fixer, **({"origin": origin} if origin else {}))
             elif route == "text":
-                gen = read_csv(io.StringIO(payload), to=to, issue_tracker=tr, fixer=fixer)
+                gen = read_csv(io.StringIO(payload), to=to, issue_tracker=tr, fixer=fixer, **kw)
             elif route == "file":
-                gen = read_csv(payload, to=to, issue_tracker=tr, fixer=fixer)
+                gen = read_csv(payload, to=to, issue_tracker=tr, fixer=fixer, **kw)
             elif route == "file-env":
                 # a RELATIVE path, and the environment changes while the reader is at work (after the first block
                 # was handed over): the working directory moves away, or the file is unlinked / renamed
                 folder, name = payload
                 os.chdir(folder)
-                gen = read_csv(name, to=to, issue_tracker=tr, fixer=fixer)
+                gen = read_csv(name, to=to, issue_tracker=tr, fixer=fixer, **kw)
             else:
                 gen = read_excel(payload, to=to, issue_tracker=tr, fixer=fixer)
             for bt, val in gen:
@@ -227,6 +242,11 @@ def run_reader(route, payload, to, tracker, fixer_kind, env=None, rows=None):
                 except AttributeError:
                     pass
                 blocks.append({"ty": bt.name, "first": first, "val": bc.canon_block(bt, val, to)})
+                if bt.name == "TABLE":
+                    try:
+                        table_sheets.append(val.metadata.origin.input_location.sheet_name)
+                    except AttributeError:
+                        table_sheets.append(None)
                 if route == "file-env" and len(blocks) == 1:
                     if env == "chdir":
                         os.chdir("/")
@@ -235,7 +255,7 @@ def run_reader(route, payload, to, tracker, fixer_kind, env=None, rows=None):
                     elif env == "rename":
                         os.replace(os.path.join(folder, name), os.path.join(folder, name + ".moved"))
     except InputError as e:
-        issue = e.args[0]
+        issue = err_issue = e.args[0]
         ending = {"InputError": getattr(getattr(issue, "load_location", None), "row", None)}
     except Exception as e:  # noqa: BLE001
         ending = {"escaped": type(e).__name__}
@@ -247,13 +267,22 @@ def run_reader(route, payload, to, tracker, fixer_kind, env=None, rows=None):
                     os.remove(os.path.join(folder, leftover))
     issues = [getattr(i.load_location, "row", None) for i in tr.issues] if tr is not None else \
         ([ending["InputError"]] if isinstance(ending, dict) and "InputError" in ending else [])
+    # where the reported issues say they are: file path (file routes) and sheet name (workbooks)
+    all_issues = list(tr.issues) if tr is not None else ([err_issue] if err_issue is not None else [])
+    where = []
+    for i in all_issues:
+        loc = getattr(i, "load_location", None)
+        f = getattr(loc, "file", None)
+        where.append({"sheet": getattr(loc, "sheet_name", None),
+                      "path": str(getattr(f, "local_path", None)) if getattr(f, "local_path", None) is not None else None})
     tvals = [b["val"] for b in blocks if b["ty"] == "TABLE"]
     if to == "pdtable":
         rec = [b["first"] for b in blocks if b["ty"] == "TABLE"]          # a Table carries its own origin
     else:
         rec = table_origins(rows if rows is not None else payload, to, tracker, fixer_kind) if tvals else []
     tables = list(zip(rec, tvals)) if rec is not None and len(rec) == len(tvals) else [(None, v) for v in tvals]
-    return {"blocks": blocks, "issues": issues, "ending": ending, "tables": tables}
+    return {"blocks": blocks, "issues": issues, "ending": ending, "tables": tables, "where": where,
+            "table_sheets": table_sheets}
 
 
 _CWD = os.getcwd()
@@ -372,21 +401,39 @@ def judge(out, case, drows, urows, u_res, res_r, res_c, prefix_run, shift, to):
                          [i for i, x in enumerate(drows) if is_table_start(x)], key="location")
                 return False
     starts = [i for i, x in enumerate(drows) if is_table_start(x)]
+    for nm, res in (("raising", res_r), ("collecting", res_c)):
+        if res is None:
+            continue
+        for w in res.get("where", []):
+            if res.get("expect_path") is not None and w["path"] != res["expect_path"]:
+                out.fail("the error location names another file than the one being read", dict(case, tracker=nm),
+                         w["path"], res["expect_path"], key="location:file")
+                return False
+            if case.get("expect_sheet") is not None and w["sheet"] != case["expect_sheet"]:
+                out.fail("the error location names another sheet than the one holding the block", dict(case, tracker=nm),
+                         w["sheet"], case["expect_sheet"], key="location:sheet")
+                return False
+    unobservable = any(f is None for res in (res_r, res_c) if res is not None for f, _ in res["tables"])
+    if unobservable:
+        out.count("origin rows of delivered tables unobservable for this form: origin checks skipped")
+        shift = None
     if res_c is not None:
         if res_c["ending"] != "exhausted":
             out.fail("with a collecting tracker the read did not run to the end", dict(case, tracker="collecting"),
                      res_c["ending"], "exhausted", key="collecting_stopped")
             return False
         deliv = [f for f, _ in res_c["tables"]]
-        if None in deliv or sorted(deliv + res_c["issues"]) != starts or deliv != sorted(deliv) or \
-                res_c["issues"] != sorted(res_c["issues"]):
+        if not unobservable and (sorted(deliv + res_c["issues"]) != starts or deliv != sorted(deliv) or
+                                 res_c["issues"] != sorted(res_c["issues"])):
             out.fail("table blocks are not partitioned into delivered and reported, in order", dict(case, tracker="collecting"),
                      {"delivered": deliv, "issues": res_c["issues"]}, starts, key="partition")
             return False
     if res_r is not None:
         end = res_r["ending"]
         deliv = [f for f, _ in res_r["tables"]]
-        if end == "exhausted":
+        if unobservable:
+            pass
+        elif end == "exhausted":
             if deliv != starts:
                 out.fail("a read that ended normally did not deliver every table block", dict(case, tracker="raising"),
                          deliv, starts, key="raising_missing")
@@ -479,6 +526,130 @@ LONG_FAULTS = [datetime.date(2020, 1, 2), datetime.datetime(2020, 1, 2, 3, 4), d
                "2020-01-02T00:00:00Z"]
 
 
+LAW_ALPHA = "0123456789-/:. TZ+eE,_apm"
+UNI_DIGITS = ["١", "٣", "²", "１", "৩", "๔"]
+
+
+def law_strings(seed, n):
+    """digit-leading strings (what _parse_datetime_column hands to pandas.to_datetime), deterministic per seed"""
+    rng = make_rng(seed, "C12:law")
+    seeds = ["2020-01-02", "2020-01-02 03:04:05", "1/2/2020", "12:30", "2020-01-02T00:00:00+01:00", "20200102", "1e5",
+             "2020-W01-1", "1 pm", "0", "10000-01-01", "0001-01-01", "2262-04-12", "1677-09-20", "99999999999999999999",
+             "2020-01-02 25:00", "2020-02-30", "1_000", "1,5", "12am", "1-1-1", "2020-01-02T00:00:00.123456789Z",
+             "2020-01-02 00:00:00-03:30", "2020-01-02 00:00:00+14:00", "9" * 40, "1" * 400]
+    out = list(seeds)
+    while len(out) < n:
+        r = rng.random()
+        if r < 0.45:
+            s = rng.choice("0123456789") + "".join(rng.choice(LAW_ALPHA) for _ in range(rng.randint(0, 14)))
+        elif r < 0.55:
+            s = rng.choice(UNI_DIGITS) + "".join(rng.choice(LAW_ALPHA + "".join(UNI_DIGITS)) for _ in range(rng.randint(0, 8)))
+        else:
+            t = list(rng.choice(seeds))
+            for _ in range(rng.randint(1, 3)):
+                k = rng.randrange(len(t) + 1)
+                op = rng.random()
+                if op < 0.4 and t:
+                    t[min(k, len(t) - 1)] = rng.choice(LAW_ALPHA)
+                elif op < 0.7:
+                    t.insert(k, rng.choice(LAW_ALPHA))
+                elif len(t) > 1:
+                    del t[min(k, len(t) - 1)]
+            s = "".join(t)
+            if not s or not s[0].isdigit():
+                s = "1" + s
+        out.append(s)
+    return out
+
+
+def law_stream(seed, thorough, out, model_ok, ops, pend, tmpdir):
+    """the external law DtLaw on a deterministic stream of digit-leading strings (checked string by string in
+    `ext_for`), and the same strings as cell faults of datetime columns through the reader"""
+    strings = law_strings(seed, 6000 if thorough else 2000)
+    for k in range(0, len(strings), 200):
+        ext_for([strings[k:k + 200]], out)
+    rng = make_rng(seed, "C12:lawtables")
+    per = 20
+    n_tables = len(strings) // per if thorough else 24
+    for t in range(n_tables):
+        chunk = strings[t * per:(t + 1) * per] if thorough else rng.sample(strings, per)
+        urows = [["**law%d" % t], ["all"], ["when", "n"], ["datetime", "-"]] + [["2020-01-02", str(i)] for i in range(per)] + [[]]
+        drows = [list(r) for r in urows]
+        for i, sv in enumerate(chunk):
+            drows[4 + i][0] = sv
+        sp = {"how": rng.choice(["native", "native-tuples", "text"]), "to": rng.choice(["pdtable", "jsondata"]),
+              "fixer_kind": rng.choice([None, "lenient"]), "trackers": ["raising", "collecting"], "urows": None,
+              "ukey": None, "drows": drows, "dtext": None, "shift": None,
+              "case": {"seed": seed, "stream": "law-table", "index": t, "kind": "cell"}}
+        if sp["how"] == "text":
+            if any(";" in c or "\n" in c for r in drows for c in r):
+                sp["how"] = "native"
+            else:
+                sp["dtext"] = to_text(drows)
+                sp["drows"] = split_text(sp["dtext"])
+        run_spec(sp, out, model_ok, ops, pend, tmpdir)
+
+
+def two_sheet_spec(sp, out, tmpdir):
+    """a workbook with two sheets: "One" holds the damaged input, "Two" a valid one. Judged: every reported location
+    names the sheet that holds the block and a `**` row of THAT sheet; with a collecting tracker reading goes on with
+    the next sheet (all its tables delivered); with the raising tracker nothing of the next sheet is delivered after
+    an error"""
+    import openpyxl
+    path = os.path.join(tmpdir, "c12_two_%d.xlsx" % sp["case"]["index"])
+    wb = openpyxl.Workbook()
+    wb.remove(wb.active)
+    for name, rows in (("One", sp["xrows"]), ("Two", sp["valid"])):
+        ws = wb.create_sheet(name)
+        for r in rows:
+            ws.append(list(r))
+    wb.save(path)
+    try:
+        wb2 = openpyxl.load_workbook(path, read_only=True, data_only=True, keep_links=False)
+        try:
+            xr = {w.title: [tuple(r) for r in w.iter_rows(values_only=True)] for w in wb2.worksheets}
+        finally:
+            wb2.close()
+        res = {tr: run_reader("excel", path, "pdtable", tr, None, rows=[]) for tr in ("raising", "collecting")}
+    finally:
+        os.remove(path)
+    case = dict(sp["case"], route="excel-two-sheets", rows={k: grid_to_json(v) for k, v in xr.items()})
+    out.evaluations += 1
+    out.nontrivial.add(hash((repr(xr), "two")))
+    out.count("route:excel-two-sheets")
+    starts = {k: [i for i, x in enumerate(v) if is_table_start(x)] for k, v in xr.items()}
+    n0 = len(out.failures)
+    for nm, r in res.items():
+        c = dict(case, tracker=nm)
+        if isinstance(r["ending"], dict) and "escaped" in r["ending"]:
+            out.fail("an exception other than InputError escaped the reader", c, r["ending"], None,
+                     key="escape:" + r["ending"]["escaped"])
+            break
+        bad = [(w["sheet"], row) for w, row in zip(r["where"], r["issues"])
+               if w["sheet"] not in starts or row not in starts[w["sheet"]]]
+        if bad:
+            out.fail("the error location (sheet, row) is not the `**` row of a table block of that sheet", c, bad, starts,
+                     key="location:sheet")
+            break
+        got_two = [s for s in r["table_sheets"] if s == "Two"]
+        failed_one = any(w["sheet"] == "One" for w in r["where"])
+        if nm == "collecting":
+            if r["ending"] != "exhausted" or len(got_two) != len(starts["Two"]):
+                out.fail("after a collected error reading did not go on with the next sheet", c,
+                         {"ending": r["ending"], "tables of sheet Two": len(got_two)}, len(starts["Two"]), key="next_sheet")
+                break
+        elif failed_one and got_two:
+            out.fail("blocks of a later sheet were delivered after the error was raised", c, len(got_two), 0,
+                     key="raised_but_continued")
+            break
+        elif not failed_one and r["ending"] == "exhausted" and len(got_two) != len(starts["Two"]):
+            out.fail("a read that ended normally did not deliver every table block", c, len(got_two), len(starts["Two"]),
+                     key="raising_missing")
+            break
+    for f in out.failures[n0:]:
+        f["input"]["spec"] = encode_spec(sp)
+
+
 def encode_spec(sp):
     import base64
     import pickle
@@ -503,13 +674,14 @@ def run(tier, seed, model_ok, translator, search=False):
                 "grids and workbooks. Non-trivial: the damaged input differs from the undamaged one; distinct by damaged "
                 "input + configuration. Base i is generated from (seed, i); a failing case carries its full specification.")
     thorough = tier == "thorough"
-    n_bases = 14 if thorough else (12 if search else 6)
+    n_bases = 14 if thorough else (12 if search else 5)
     ops, pend = [], []
     tmpdir = tempfile.mkdtemp(prefix="c12-")
     try:
         for bi in range(n_bases):
             one_base(seed, bi, thorough, out, model_ok, ops, pend, tmpdir)
         long_tables(seed, thorough, out, model_ok, ops, pend, tmpdir)
+        law_stream(seed, thorough, out, model_ok, ops, pend, tmpdir)
     finally:
         shutil.rmtree(tmpdir, ignore_errors=True)
     if model_ok and ops:
@@ -561,10 +733,19 @@ def run_spec(sp, out, model_ok, ops, pend, tmpdir, cache=None):
         path = write_xlsx(tmpdir, sp["xrows"], n_files[0], how.endswith("nodimension"))
         drows = read_xlsx_rows(path)
     small = sum(len(r) for r in drows) <= 600
+    sep, origin = sp.get("sep"), sp.get("origin")
     case = dict(sp["case"], route=how, to=to, fixer=fixer_kind or "default",
                 rows=grid_to_json(drows) if small else {"n_rows": len(drows), "see": "spec"})
     if dtext is not None:
         case["text"] = dtext
+    if sep:
+        case["sep"] = sep
+        out.count("read_csv sep:" + repr(sep))
+    if origin:
+        case["origin"] = origin
+        out.count("origin= argument given")
+    if how.startswith("excel"):
+        case["expect_sheet"] = "Sheet"
     out.evaluations += 1
     if uro is None or drows != uro:
         out.nontrivial.add(hash((repr(drows) if small else repr(sp["case"]), how, to, fixer_kind)))
@@ -583,16 +764,18 @@ def run_spec(sp, out, model_ok, ops, pend, tmpdir, cache=None):
                 n_files[0] += 1
                 fpath = write_text_file(tmpdir, dtext, n_files[0])
                 res[tr] = run_reader("file-env", (tmpdir, os.path.basename(fpath)), to, tr, fixer_kind,
-                                     env=how.split(":")[1], rows=drows)
+                                     env=how.split(":")[1], rows=drows, sep=sep, origin=origin)
+                res[tr]["expect_path"] = os.path.basename(fpath)         # the relative path as it was given
             elif how == "file":
                 n_files[0] += 1
                 fpath = write_text_file(tmpdir, dtext, n_files[0])
                 try:
-                    res[tr] = run_reader("file", fpath, to, tr, fixer_kind, rows=drows)
+                    res[tr] = run_reader("file", fpath, to, tr, fixer_kind, rows=drows, sep=sep, origin=origin)
                 finally:
                     os.remove(fpath)
+                res[tr]["expect_path"] = fpath
             elif how == "text":
-                res[tr] = run_reader("text", dtext, to, tr, fixer_kind, rows=drows)
+                res[tr] = run_reader("text", dtext, to, tr, fixer_kind, rows=drows, sep=sep, origin=origin)
             elif how.startswith("excel"):
                 res[tr] = run_reader("excel", path, to, tr, fixer_kind, rows=drows)
             elif how == "native-tuples":
@@ -623,7 +806,7 @@ def run_spec(sp, out, model_ok, ops, pend, tmpdir, cache=None):
     if model_ok and not sp.get("no_model"):
         for tr in trackers:
             if dtext is not None:
-                ops.append({"op": "read_csv_blocks", "text": dtext, "sep": ";", "to": to, "filter": None, "tracker": tr,
+                ops.append({"op": "read_csv_blocks", "text": dtext, "sep": sep or ";", "to": to, "filter": None, "tracker": tr,
                             "fixer": rc.FIXERS[fixer_kind or "strict"], "ext": ext})
             else:
                 ops.append({"op": "parse_blocks", "rows": grid_to_json(drows), "to": to, "filter": None, "tracker": tr,
@@ -659,12 +842,21 @@ def one_base(seed, bi, thorough, out, model_ok, ops, pend, tmpdir):
             else:
                 trackers = ["raising", "collecting"]
             how = route
+            sep = origin = None
             if route == "text":
                 if dtext is None:
                     if any(not isinstance(c, str) or "\n" in c for r in drows for c in r):
                         continue
                     dtext = to_text(drows)
-                drows = split_text(dtext)
+                sep = origin = None
+                r5 = rng.random()
+                if r5 < 0.15:
+                    cand = ["\t", ",", "|"][idx % 3]
+                    if cand not in dtext:
+                        sep, dtext = cand, dtext.replace(";", cand)      # the same grid, another separator
+                elif r5 < 0.25:
+                    origin = "somewhere/else.csv"
+                drows = [l.rstrip("\n").split(sep or ";") for l in dtext.splitlines(True)]
                 # a file on disk instead of a stream: every character truncation in the quick tier, a share otherwise
                 if (kind == "trunc_char" and (not thorough or r4 < 0.3)) or r4 < 0.08:
                     how = "file"
@@ -675,6 +867,7 @@ def one_base(seed, bi, thorough, out, model_ok, ops, pend, tmpdir):
             sp = {"how": how, "to": to, "fixer_kind": fixer_kind, "trackers": trackers,
                   "urows": trows if route == "text" else urows, "ukey": (bi, route), "drows": drows,
                   "dtext": dtext if route == "text" else None, "shift": shift,
+                  "sep": sep if route == "text" else None, "origin": origin if route == "text" else None,
                   "case": {"seed": seed, "base": bi, "index": idx, "kind": kind, "detail": detail}}
             run_spec(sp, out, model_ok, ops, pend, tmpdir, cache)
 
@@ -687,6 +880,11 @@ def one_base(seed, bi, thorough, out, model_ok, ops, pend, tmpdir):
     forced = [c for c in cands if c[0] == "row_shorten" and c[1] in tl][:4]
     picked = [("undamaged", None, [list(r) for r in urows], None, None)] + forced + \
         xrng.sample(cands, min(len(cands), 24 if thorough else 5))
+    for kind, detail, xrows, _, _ in (picked[:2] + forced[:1] + picked[-2:]) if not thorough else picked:
+        idx += 1
+        sp = {"how": "excel2", "xrows": xrows, "valid": [list(r) for r in urows],
+              "case": {"seed": seed, "base": bi, "index": idx, "kind": kind, "detail": detail}}
+        two_sheet_spec(sp, out, tmpdir)
     for kind, detail, xrows, _, _ in picked:
         for strip in (False, True):
             idx += 1
@@ -755,7 +953,10 @@ def replay(rep):
                 u = run_reader("native", sp["valid"], "pdtable", "collecting", None)
                 ok = not u["issues"] and u["ending"] == "exhausted"
                 return ok, "the valid input is read completely" if ok else "a valid input was not read completely"
-            run_spec(sp, o, False, [], [], tmpdir)
+            if sp.get("how") == "excel2":
+                two_sheet_spec(sp, o, tmpdir)
+            else:
+                run_spec(sp, o, False, [], [], tmpdir)
         elif "rows" in inp and isinstance(inp["rows"], list):
             # an entry written before failures carried their specification: re-judge the damaged rows on their own
             drows = rows_from_json(inp["rows"])
